@@ -17,7 +17,7 @@ INTEL = [
     'call [DWORD PTR [esp+16+eax*4]]', 'jmp [DWORD PTR .L40[0+eax*4]]', 'jz .LC0', 'cmp eax, DWORD PTR [4+ecx+edx]',
     'xor BYTE PTR AZCAER_+41359, -128', 'mov WORD PTR 0, ax', 'lea eax, -8+a[ebx]', 'fild DWORD PTR ds:0', 'mov eax, ebx',
     'sar eax', 'imul eax, eax, 0x000000C8', 'shr edx, 0x0000001F', 'test dl, BYTE PTR[ebp-92]', 'mov si, WORD PTR[ebp-3]',
-    'fdivr QWORD PTR -112[ebp]',
+    'fdivr QWORD PTR -112[ebp]', 'mov eax, DWORD PTR eax', 'push WORD PTR bx',
 ]
 ATT = [
     'movl 4(%ebx), %eax', 'movb $254, (%ebp)', 'movl %gs:20, %eax', 'movl 16(%esp,%eax,4), %eax', 'leal (,%eax,4), %ebx',
@@ -33,7 +33,7 @@ BAD = [['intel', 'mov eax, ebx ]'], ['intel', 'mov [eax'], ['intel', 'mov eax, [
 ORDERS = [['arch', 'parse_ad', 'emul'], ['parse_ad', 'arch', 'emul'], ['emul', 'arch', 'parse_ad'], ['att', 'arch', 'parse_ad'], ['arch'],
           ['parse_ad', 'att', 'arch']]
 
-def lifetime(cachedir, spec, bytecode):
+def lifetime(cachedir, spec, bytecode, pyopt=False):
     """One process lifetime.  Returns ('ok', result) | ('crashed', info) | ('error', text)."""
     sf = os.path.join(os.path.dirname(cachedir), 'spec-%s.json' % os.path.basename(cachedir))
     with open(sf, 'w') as f:
@@ -46,7 +46,8 @@ def lifetime(cachedir, spec, bytecode):
     else:
         env['PYTHONDONTWRITEBYTECODE'] = '1'
     try:
-        r = subprocess.run([core.PY, WORKER, core.REPO, cachedir, sf], env=env, stdout=subprocess.PIPE, stderr=subprocess.PIPE, timeout=300)
+        # (pyopt: the interpreter runs in optimised mode, python -O - a deployment configuration like byte-code caching)
+        r = subprocess.run([core.PY] + (['-O'] if pyopt else []) + [WORKER, core.REPO, cachedir, sf], env=env, stdout=subprocess.PIPE, stderr=subprocess.PIPE, timeout=300)
     except subprocess.TimeoutExpired:
         return 'timeout', None
     finally:
@@ -77,13 +78,33 @@ def warm_dir(base):
             raise core.HarnessError('cannot produce warm tables: %s %r' % (st, res))
     return d
 
-def stale_grammar_dir(base):
+def move_rule_function(src):
+    """Another revision of a grammar module that differs only in WHERE one rule function sits (yacc resolves
+    reduce/reduce conflicts in favour of the rule defined first, so the order is part of the grammar)."""
+    import re
+    starts = [m.start() for m in re.finditer(r'^def p_(?!error)', src, re.M)]
+    if len(starts) < 4:
+        return None
+    ends = starts[1:] + [None]
+    # end of the last rule function: the next top-level statement after it
+    nl = src.index('\n', starts[-1]) + 1
+    m = re.search(r'^(?![ \t#\n]|def p_)', src[nl:], re.M)
+    ends[-1] = nl + m.start() if m else len(src)
+    blocks = [src[a:b] for a, b in zip(starts, ends)]
+    k = next((i for i, b in enumerate(blocks) if b.startswith('def p_symbolregister')), 1)
+    if k == 0:
+        k = 1
+    moved = blocks[:k] + blocks[k + 1:] + [blocks[k] if blocks[k].endswith('\n') else blocks[k] + '\n']
+    return src[:starts[0]] + ''.join(moved) + src[ends[-1]:]
+
+def stale_grammar_dir(base, flavour='prec'):
     """Tables generated by ANOTHER REVISION of the two grammars (same rule
-    functions, operator precedence changed): well-formed, bindable, right table
+    functions; operator precedence changed, or - flavour 'ruleorder' - one rule
+    function moved): well-formed, bindable, right table
     version, different signature - using them would change parses.  Built by
     running a textually modified copy of the grammar modules of the tree under
     test as scripts with TMPDIR pointing at the result directory."""
-    d = os.path.join(base, 'stale-grammar-master')
+    d = os.path.join(base, 'stale-grammar-master' if flavour == 'prec' else 'stale-ruleorder-master')
     if os.path.isdir(d):
         return d if all(os.path.isfile(os.path.join(d, m + '.py')) for m in MODS) else None
     os.makedirs(d)
@@ -96,8 +117,12 @@ def stale_grammar_dir(base):
             ok = False
             break
         mod = os.path.join(base, 'stale_src_' + os.path.basename(rel))
+        changed = src.replace(a, b, 1) if flavour == 'prec' else move_rule_function(src)
+        if changed is None or changed == src:
+            ok = False
+            break
         with open(mod, 'w') as f:
-            f.write(src.replace(a, b, 1))
+            f.write(changed)
         env = dict(os.environ)
         env.update({'TMPDIR': d, 'PYTHONPATH': core.REPO, 'PYTHONDONTWRITEBYTECODE': '1', 'PYTHONHASHSEED': '0'})
         r = subprocess.run([core.PY, mod], env=env, stdout=subprocess.DEVNULL, stderr=subprocess.DEVNULL, timeout=300)
@@ -162,13 +187,14 @@ def prepare_dir(d, state, warm, rng, log):
             shutil.copyfile(os.path.join(warm, other + '.py'), dst)
             log.append('stale-signature:%s' % m)
         elif kind == 'stale-grammar':
-            sg = stale_grammar_dir(os.path.dirname(warm))
+            flavour = 'ruleorder' if rng.random() < 0.4 else 'prec'
+            sg = stale_grammar_dir(os.path.dirname(warm), flavour)
             if sg is None:
                 shutil.copyfile(src, dst)
                 log.append('stale-grammar-unavailable')
             else:
                 shutil.copyfile(os.path.join(sg, m + '.py'), dst)
-                log.append('stale-grammar:%s' % m)
+                log.append('stale-grammar:%s' % m if flavour == 'prec' else 'stale-ruleorder:%s' % m)
         elif kind == 'stale-sigbytes':
             k = data.find(b'_lr_signature = ')
             e = data.find(b'\n', k)
@@ -259,7 +285,10 @@ def execute(base, run, tag):
     try:
         for n, lf in enumerate(run['lives']):
             spec = base_spec(lf['order'], lf.get('fault'))
-            st, res = lifetime(d, spec, lf['bytecode'])
+            # one lifetime in seven runs under python -O (decided by a hash, not by the PRNG, so that older replay files
+            # and the other draws are unaffected)
+            pyopt = int(hashlib.sha256(('%s|%d|pyopt' % (run['prep_seed'], n)).encode()).hexdigest(), 16) % 7 == 0
+            st, res = lifetime(d, spec, lf['bytecode'], pyopt)
             stats['lifetimes'] += 1
             if st == 'timeout':
                 return {'status': 'discard', 'reason': 'timeout', 'stats': stats}
@@ -280,6 +309,8 @@ def execute(base, run, tag):
             stats['fired'] += res.get('fired', [])
             if lf['bytecode']:
                 stats['fired'].append('bytecode-on')
+            if pyopt:
+                stats['fired'].append('python-O')
             a1, a2 = api_view(r1), api_view(r2)
             dd = first_diff(a1, a2)
             if dd:
